@@ -90,7 +90,9 @@ def strategy_(draw, tier):
         cut = draw(st.sampled_from(range(len(items) + 1)))
         tree = {"r1": {"t": "d", "ch": dict(items[:cut])}, "r2": {"t": "d", "ch": dict(items[cut:])}, "r3": {"t": "d", "ch": {}}}
         roots = draw(st.lists(st.sampled_from(["r1", "r2", "r3", ".", "r1 depth 1", "r2 bfs"]), min_size=2, max_size=4))
-    return {"tree": tree, "path": path, "cols": cols, "where": where, "roots": roots,
+    # group rows ordered by a key that is (or is not) one of the displayed columns: a row is as long as the select list
+    gorder = draw(st.sampled_from([None, "1", "max(size) desc", "min(length(name)), 1", "count(*) desc, 1"])) if path == "grouped" else None
+    return {"tree": tree, "path": path, "cols": cols, "where": where, "roots": roots, "gorder": gorder,
             # a LIMIT on group rows too: which groups survive must not differ from one run (format) to the next
             "limit": draw(st.sampled_from([None, None, None, 1, 3])) if path in ("streamed", "ordered", "grouped") else None}
 
@@ -105,6 +107,8 @@ def query(case, fmt):
         q += " where " + case["where"]
     if case["path"] == "grouped":
         q += " group by " + case["cols"][0]
+        if case.get("gorder"):
+            q += " order by " + case["gorder"]
     if case["path"] == "ordered":
         q += " order by " + ("path" if "path" in case["cols"] else "name") + ", path"
     if case["limit"]:
@@ -306,6 +310,8 @@ def check(case):
             out.classes.append("row>64KiB")
         elif rowlen > 8192:
             out.classes.append("row>8KiB")
+        if case.get("gorder"):
+            out.classes.append("grouped+ordered-by-" + ("hidden-key" if case["gorder"][0] != "1" else "shown-key"))
         out.classes = sorted(set(out.classes))
         out.sample = {"query": query(case, "FORMAT"), "rows": len(T), "first_row": [c[:40] for c in T[0]] if T else None}
     finally:
